@@ -149,107 +149,150 @@ func vC04CaseCut(out *vC04Out, r *rand.Rand) {
 	defer env.close()
 	k := env.k
 	zone, denied := "c04cut.test.", "gone.c04cut.test."
-	proof := vC04NXProof(r, zone, denied, time.Now().Unix(), r.Intn(3) == 0)
-	hasCut := r.Intn(2) == 0
-	cutV := int64(0)
-	var cutReal time.Time
-	if hasCut {
-		off := []time.Duration{-time.Second, 1500 * time.Millisecond, 4 * time.Second, 200 * time.Second, 2 * time.Hour}[r.Intn(5)]
-		cutV = k.now() + int64(off)
-		cutReal = k.real(cutV)
-	}
 	cc := env.c.store.nxDomainCuts
-	t0, w0 := k.now(), time.Now().UnixNano()
-	ok := env.c.store.RecordNXDomainCut(proof, denied, zone, cutReal)
-	t1, w1 := k.now(), time.Now().UnixNano()
-	_ = t0
-	_ = w0
-	soa := proof.Ns[0].(*dns.SOA)
-	entry := cc.entries[nxDomainCutID{deniedName: denied, qclass: dns.ClassINET}]
-	if ok != (entry != nil) {
-		out.emit(map[string]any{"k": "cut-record", "go_fail": "RecordNXDomainCut verdict disagrees with the index", "desc": "internal"})
-		return
-	}
-	if entry == nil {
-		out.emit(map[string]any{"k": "cut-record-refused", "nontrivial": true,
-			"coq": fmt.Sprintf("CCutRec %d %d %d %s %s %s %d %s %d None", int64(cc.maxTTL), soa.Hdr.Ttl, soa.Minttl, vC04PRRs(proof.Ns), vC04OZ(hasCut, cutV),
-				vC04Z(t1), w1, vC04Z(t1), w1),
-			"desc": map[string]any{"proof": proof.String(), "cut": fmt.Sprint(hasCut, cutV)}})
-		return
-	}
-	nowV, wall := k.virt(entry.stored), entry.stored.UnixNano()
-	expV := k.virt(entry.expires)
-	fail := ""
-	life := entry.expires.Sub(entry.stored)
-	for _, rr := range entry.msg.Ns {
-		if life > time.Duration(rr.Header().Ttl)*time.Second {
-			fail = "cut outlives a proof record TTL (a floor was applied?)"
+	id := nxDomainCutID{deniedName: denied, qclass: dns.ClassINET}
+	// one to three admissions for the same denied name across clock steps: a cut
+	// re-learned while the previous one is live takes the lifetime of the NEW proof
+	for adm, nAdm := 0, 1+r.Intn(3); adm < nAdm; adm++ {
+		tight := r.Intn(3) == 0
+		if adm == 0 && nAdm > 1 {
+			tight = r.Intn(6) == 0 // something long-lived to be replaced
 		}
-	}
-	if hasCut && expV > cutV {
-		fail = "cut outlives its lease"
-	}
-	out.emit(map[string]any{"k": "cut-record", "nontrivial": true, "go_fail": fail,
-		"coq": fmt.Sprintf("CCutRec %d %d %d %s %s %s %d %s %d (sz %s)", int64(cc.maxTTL), soa.Hdr.Ttl, soa.Minttl, vC04PRRs(entry.msg.Ns), vC04OZ(hasCut, cutV),
-			vC04Z(nowV), wall, vC04Z(t1), w1, vC04Z(expV)),
-		"desc": map[string]any{"proof": proof.String(), "cut": fmt.Sprint(hasCut, cutV), "life": life.String()}})
-
-	// serve descendants while stepping towards and past the expiry
-	for s, steps := 0, 2+r.Intn(3); s < steps; s++ {
-		now := k.now()
-		var target int64
-		switch r.Intn(5) {
-		case 0:
-			target = expV - int64(1400*time.Millisecond)
-		case 1:
-			target = expV - int64(300*time.Millisecond)
-		case 2:
-			target = expV + int64(200*time.Millisecond)
-		case 3:
-			target = now
-		default:
-			if expV > now {
-				target = now + r.Int63n(expV-now+1)
-			}
+		if adm > 0 {
+			tight = r.Intn(3) > 0 // re-admissions are mostly shorter-lived than what they replace
 		}
-		if target > now {
-			vC04Shift(env.c, k, time.Duration(target-now))
+		proof := vC04NXProof(r, zone, denied, time.Now().Unix(), tight)
+		hasCut := r.Intn(2) == 0
+		cutV := int64(0)
+		var cutReal time.Time
+		if hasCut {
+			off := []time.Duration{-time.Second, 1500 * time.Millisecond, 4 * time.Second, 200 * time.Second, 2 * time.Hour}[r.Intn(5)]
+			cutV = k.now() + int64(off)
+			cutReal = k.real(cutV)
 		}
-		route := []int{0, 1, 2, 2}[r.Intn(4)]
-		qname := []string{"a.b.GONE.c04cut.test.", "gone.c04cut.test.", "x.gone.c04cut.test."}[r.Intn(3)]
-		rep := env.query(route, qname, r.Intn(2) == 0, false, nil, "")
-		ttl := int64(-1)
-		sfail := ""
-		if len(rep.stubbed) == 0 && rep.msg != nil && rep.msg.Rcode == dns.RcodeNameError {
-			tt := vC04ReplyTTLs(rep.msg)
-			if len(tt) == 0 {
+		prev := cc.entries[id]
+		t0, w0 := k.now(), time.Now().UnixNano()
+		ok := env.c.store.RecordNXDomainCut(proof, denied, zone, cutReal)
+		t1, w1 := k.now(), time.Now().UnixNano()
+		_ = t0
+		_ = w0
+		soa := proof.Ns[0].(*dns.SOA)
+		entry := cc.entries[id]
+		if ok != (entry != nil && entry != prev) {
+			out.emit(map[string]any{"k": "cut-record", "go_fail": "RecordNXDomainCut verdict disagrees with the index", "desc": "internal"})
+			return
+		}
+		if !ok {
+			out.emit(map[string]any{"k": "cut-record-refused", "nontrivial": true,
+				"coq": fmt.Sprintf("CCutRec %d %d %d %s %s %s %d %s %d None", int64(cc.maxTTL), soa.Hdr.Ttl, soa.Minttl, vC04PRRs(proof.Ns), vC04OZ(hasCut, cutV),
+					vC04Z(t1), w1, vC04Z(t1), w1),
+				"desc": map[string]any{"proof": proof.String(), "cut": fmt.Sprint(hasCut, cutV)}})
+			if entry == nil {
 				continue
 			}
-			ttl = int64(tt[0])
-			for _, x := range tt {
-				if int64(x) != ttl {
-					sfail = "records of one cut carry different TTLs"
+		}
+		nowV, wall := k.virt(entry.stored), entry.stored.UnixNano()
+		expV := k.virt(entry.expires)
+		fail := ""
+		life := entry.expires.Sub(entry.stored)
+		for _, rr := range entry.msg.Ns {
+			if ok && life > time.Duration(rr.Header().Ttl)*time.Second {
+				fail = "cut outlives a proof record TTL (a floor was applied?)"
+			}
+		}
+		if ok && hasCut && expV > cutV {
+			fail = "cut outlives its lease"
+		}
+		kr := "cut-record"
+		if adm > 0 {
+			kr = "cut-rerecord"
+			if prev != nil && prev != entry && time.Now().Before(prev.expires) {
+				kr = "cut-rerecord-live"
+				if entry.expires.Before(prev.expires) {
+					kr = "cut-rerecord-live-shorter"
 				}
 			}
-			if rep.t0 >= expV {
-				sfail = "cut served past its expiry"
-			} else if ttl*int64(time.Second) > expV-rep.t0 {
-				sfail = "cut TTL exceeds the time remaining"
+		}
+		if !ok {
+			kr = "" // refused: keep serving what is there, against ITS expiry
+		}
+		if kr != "" {
+			out.emit(map[string]any{"k": kr, "nontrivial": true, "go_fail": fail,
+				"coq": fmt.Sprintf("CCutRec %d %d %d %s %s %s %d %s %d (sz %s)", int64(cc.maxTTL), soa.Hdr.Ttl, soa.Minttl, vC04PRRs(entry.msg.Ns), vC04OZ(hasCut, cutV),
+					vC04Z(nowV), wall, vC04Z(t1), w1, vC04Z(expV)),
+				"desc": map[string]any{"proof": proof.String(), "cut": fmt.Sprint(hasCut, cutV), "life": life.String()}})
+		}
+
+		// serve descendants while stepping towards and past the expiry
+		for s, steps := 0, 2+r.Intn(3); s < steps; s++ {
+			now := k.now()
+			var target int64
+			pick := r.Intn(5)
+			if adm < nAdm-1 && r.Intn(4) > 0 {
+				pick = 3 + r.Intn(2) // stay inside the lifetime: the next admission replaces a live cut
 			}
-		}
-		kk := fmt.Sprintf("cut-serve-route%d", route)
-		if rep.cutWire {
-			kk += "-wire"
-		}
-		bound := rep.bound
-		if ttl < 0 {
-			bound = "None"
-		}
-		out.emit(map[string]any{"k": kk, "nontrivial": true, "go_fail": sfail,
-			"coq":  fmt.Sprintf("CCutServe %d %s %s %s %s %s", route, vC04Z(expV), vC04Z(rep.t0), vC04Z(rep.t1), vC04Z(ttl), bound),
-			"desc": map[string]any{"qname": qname, "expires_in": expV - rep.t0, "ttl": ttl, "route": route, "wire": rep.cutWire}})
-		if ttl < 0 {
-			break
+			switch pick {
+			case 0:
+				target = expV - int64(1400*time.Millisecond)
+			case 1:
+				target = expV - int64(300*time.Millisecond)
+			case 2:
+				target = expV + int64(200*time.Millisecond)
+			case 3:
+				target = now
+			default:
+				if expV > now {
+					span := expV - now
+					if adm < nAdm-1 {
+						span /= 2
+					}
+					target = now + r.Int63n(span+1)
+				}
+			}
+			if target > now {
+				vC04Shift(env.c, k, time.Duration(target-now))
+			}
+			route := []int{0, 1, 2, 2, 5}[r.Intn(5)]
+			qname := []string{"a.b.GONE.c04cut.test.", "gone.c04cut.test.", "x.gone.c04cut.test."}[r.Intn(3)]
+			var rep vC04Reply
+			if route == 5 {
+				rep = env.storeGet(qname, r.Intn(2) == 0)
+			} else {
+				rep = env.query(route, qname, r.Intn(2) == 0, false, nil, "")
+			}
+			ttl := int64(-1)
+			sfail := ""
+			if len(rep.stubbed) == 0 && rep.msg != nil && rep.msg.Rcode == dns.RcodeNameError {
+				tt := vC04ReplyTTLs(rep.msg)
+				if len(tt) == 0 {
+					continue
+				}
+				ttl = int64(tt[0])
+				for _, x := range tt {
+					if int64(x) != ttl {
+						sfail = "records of one cut carry different TTLs"
+					}
+				}
+				if rep.t0 >= expV {
+					sfail = "cut served past its expiry"
+				} else if ttl*int64(time.Second) > expV-rep.t0 {
+					sfail = "cut TTL exceeds the time remaining"
+				}
+			}
+			kk := fmt.Sprintf("cut-serve-route%d", route)
+			if rep.cutWire {
+				kk += "-wire"
+			}
+			bound := rep.bound
+			if ttl < 0 {
+				bound = "None"
+			}
+			out.emit(map[string]any{"k": kk, "nontrivial": true, "go_fail": sfail,
+				"coq":  fmt.Sprintf("CCutServe %d %s %s %s %s %s", route, vC04Z(expV), vC04Z(rep.t0), vC04Z(rep.t1), vC04Z(ttl), bound),
+				"desc": map[string]any{"qname": qname, "expires_in": expV - rep.t0, "ttl": ttl, "route": route, "wire": rep.cutWire}})
+			if ttl < 0 {
+				break
+			}
 		}
 	}
 }
@@ -338,8 +381,10 @@ func vC04CaseProofServe(out *vC04Out, r *rand.Rand) {
 // differing SOA negative TTLs, NSEC TTLs, signature windows and leases; every
 // synthesised denial is judged against the end of the admission each of its
 // pieces arrived in. Zone layout (canonical order): apex < a < c < m < p < z.
-//   proof A denies c.<zone>: NSEC a->m (owner 1) + apex->a (owner 0, wildcard)
-//   proof B denies p.<zone>: NSEC m->z (owner 2) + apex->a (owner 0, wildcard)
+//
+//	proof A denies c.<zone>: NSEC a->m (owner 1) + apex->a (owner 0, wildcard)
+//	proof B denies p.<zone>: NSEC m->z (owner 2) + apex->a (owner 0, wildcard)
+//
 // Both carry the zone's SOA; a later admission replaces the SOA entry and the
 // sets it carries, nothing else.
 func vC04CaseProofHist(out *vC04Out, r *rand.Rand) {
